@@ -72,6 +72,8 @@ class C02Scenario(ChangeScenario):
         resumed: dict[tuple[str, str, str], float] = {}   # (process, uid, resume handler) -> when it succeeded
 
         for t, k, p in env.obs:
+            if k == 'call' and p.get('rv') is not None and int(p['rv']) < own_rv.get(p.get('name'), 0):
+                disturbed = True   # a stale view (the echo was later than the consistency timeout): the statement's carve-out
             if k == 'call' and p['id'] in resume_ids and p['outcome'].split(',')[0] == 'ok':
                 # (e) a resume handler's recorded success holds for the process, whatever cause the cycle continues under
                 key = (p['op'], p['uid'], p['id'])
